@@ -526,6 +526,11 @@ impl Module for M {
 //   C02:outside-bbox:thick-triangle, C02:transparent-draws:thick-triangle, C01:pixels-vs-draw:thick-triangle,
 //   C07:draw-not-shifted:thick-triangle, C07:bbox-not-shifted:thick-triangle, C07:translate-mut-differs:thick-triangle
 //                                        the same predicates for the triangle moved by (dx,dy) against the unmoved one
+//   counters `triangle:scanlines:*`      (observations, no oracle: the property text is silent) the triangle's `ScanlineIterator` is
+//                                        not fused; polling `pixels()` beyond its first `None` must not yield again, and every row of
+//                                        bounding_box() should be painted when every scanline has a colour (`EGV_ROWHUNT=1` prints
+//                                        the op of every exception to stderr). Never seen on 3.5 million aimed ops (exhaustive 7x7
+//                                        lattice x widths 0..6 x alignments, slivers, flat, sharp corners, display scale).
 //   C19:tri-outline                      width 1 with a stroke colour: the stroke-coloured pixels are the union of the
 //                                        three edge lines' `Line::points()`, each edge in one of its two orientations
 //                                        (the predicate of the `tri` module)
@@ -1572,6 +1577,59 @@ fn exec_triangle(t: &mut Toks, op: &str, ctx: &mut Ctx) -> String {
         mp.insert((p.y, p.x), *c);
     }
     ctx.expect(mp == *m, "C01:pixels-vs-draw:thick-triangle", || format!("draw() {} px, pixels() {} px, {} differing entries", m.len(), mp.len(), map_diff(m, &mp)));
+    // `ScanlineIterator` is NOT fused (a row of the styled box without any intersection makes `next()` return `None`,
+    // the following call goes on with the next row), `draw_styled` stops at its first `None`, `StyledPixelsIterator`
+    // forgives the one `new()` sees. Two observations on the real code (counters, the property text is silent on them):
+    //  * polling `pixels()` beyond its first `None`, once per remaining row of the box and a few more: any further pixel
+    //    means that a row without a scanline is followed by a row with a coloured one (EG/Props/C01/Triangle.lean proves
+    //    that the model has no such row at the top of the box; an inner one would truncate draw() and pixels() alike);
+    //  * rows of bounding_box() in which draw() painted nothing (only for styles that colour every scanline).
+    {
+        let mut it = styled.pixels();
+        let mut n = 0usize;
+        while it.next().is_some() {
+            n += 1;
+        }
+        let mut resumed = 0usize;
+        for _ in 0..(bb.size.height.min(1 << 16) as usize + 4) {
+            while it.next().is_some() {
+                resumed += 1;
+            }
+        }
+        debug_assert_eq!(n, px.len());
+        if resumed > 0 && std::env::var("EGV_ROWHUNT").is_ok() { eprintln!("RESUMED {} bb={} n={} resumed={}", op, fmt_rect(&bb), n, resumed); }
+        ctx.count(if resumed > 0 { "triangle:scanlines:pixels()-yields-again-after-None(row-without-scanline-above-a-coloured-row)" } else { "triangle:scanlines:pixels()-stays-None-after-its-first-None" });
+        if !transparent && (w == 0 || stroke.is_some()) && !bb.is_zero_sized() {
+            let rows: std::collections::BTreeSet<i32> = m.keys().map(|(y, _)| *y).collect();
+            let top = bb.top_left.y;
+            let bottom = top + bb.size.height as i32 - 1;
+            let first_painted = rows.iter().next().copied();
+            let last_painted = rows.iter().next_back().copied();
+            let unpainted = bb.size.height as usize - rows.iter().filter(|y| **y >= top && **y <= bottom).count();
+            if m.is_empty() {
+                // a zero-area triangle with a fill colour, stroke width 0 and Inside alignment: `is_collapsed` makes every
+                // scanline a `Stroke` line, whose colour is `effective_stroke_color()` = None: rows have scanlines, no colour
+                ctx.count("triangle:scanlines:non-transparent-style-paints-nothing(zero-area,width-0,inside:collapsed-lines-are-stroke-lines)");
+            } else if unpainted == 0 {
+                ctx.count("triangle:scanlines:every-row-of-the-box-painted");
+            } else {
+                if first_painted != Some(top) {
+                    ctx.count("triangle:scanlines:TOP-row-of-the-box-unpainted");
+                    if std::env::var("EGV_ROWHUNT").is_ok() { eprintln!("TOP {} bb={} first={:?}", op, fmt_rect(&bb), first_painted); }
+                }
+                if let (Some(a), Some(b)) = (first_painted, last_painted) {
+                    if (b - a + 1) as usize != rows.len() {
+                        ctx.count("triangle:scanlines:INNER-row-unpainted-between-painted-rows");
+                        if std::env::var("EGV_ROWHUNT").is_ok() { eprintln!("INNER {} bb={}", op, fmt_rect(&bb)); }
+                    }
+                    if b != bottom {
+                        ctx.count("triangle:scanlines:BOTTOM-rows-of-the-box-unpainted");
+                        if std::env::var("EGV_ROWHUNT").is_ok() { eprintln!("BOTTOM {} bb={} last={:?}", op, fmt_rect(&bb), last_painted); }
+                    }
+                }
+            }
+        }
+    }
     if ctx.pid == "C01" {
         // the third path: draw() on a draw_iter-only target (trait defaults), unbounded and on targets that cut the shape
         let mut d1 = R1::<Rgb565>::unbounded();
